@@ -402,6 +402,60 @@ func initialPacketBuffered(c *core.Ctx, R string) {
 				}
 				also = core.ExprString(f.Br.Cond)
 			}
+			// text stays text: the string reader is read into a string buffer, everything else into a byte buffer, and
+			// one of the two has been assigned on every path to the store
+			if v, _ := core.ObjOf(info, cl.Arg(0)).(*types.Var); v != nil {
+				isText := func(x *core.Unit, br core.Branch) int {
+					if br.IsCase {
+						return 0
+					}
+					d, k := x.SingleDef(br.Cond)
+					te, isT := d.(*core.TupleElem)
+					if !k || !isT || te.Index != 1 {
+						return 0
+					}
+					if ta, isA := ast.Unparen(te.X).(*ast.TypeAssertExpr); isA && ta.Type != nil && strings.HasSuffix(types.ExprString(ta.Type), "strings.Reader") {
+						return 1
+					}
+					return 0
+				}
+				var locs []core.Loc
+				kinds := true
+				for _, a := range assignsIn(u, func(l ast.Expr) bool { return core.ObjOf(info, l) == types.Object(v) }) {
+					as, isAs := a.Stmt.(*ast.AssignStmt)
+					if !isAs || len(as.Rhs) != 1 {
+						kinds = false
+						continue
+					}
+					ce, isC := ast.Unparen(as.Rhs[0]).(*ast.CallExpr)
+					if !isC {
+						kinds = false
+						continue
+					}
+					switch k := u.CalleeKey(ce); {
+					case strings.HasSuffix(k, "NewStringBufferReader"):
+						kinds = kinds && g.GuardedBy(a.Loc, isText)
+					case strings.HasSuffix(k, "NewBytesBufferReader"):
+						kinds = kinds && g.GuardedBy(a.Loc, gNot(isText))
+					default:
+						kinds = false
+					}
+					locs = append(locs, a.Loc)
+				}
+				c.Check(R, "engine.(*baseServer).Construct/text-reader→string-buffer,other→byte-buffer", cl.Pos(), kinds && len(locs) >= 2 && g.DominatesAny(locs, cl.Loc),
+					keyf("%d assignment(s) of the buffer, each kind on its edge of the *strings.Reader test: %v; one of them on every path to the store: %v", len(locs), kinds, g.DominatesAny(locs, cl.Loc)))
+			}
+			configured := nilGuard(true, func(x *core.Unit, e ast.Expr) bool {
+				d, k := x.SingleDef(e)
+				if !k {
+					return false
+				}
+				ce, isC := ast.Unparen(exprOf(d)).(*ast.CallExpr)
+				return isC && calleeNameOf(ce) == "InitialPacket"
+			})
+			if !g.GuardedBy(cl.Loc, configured) {
+				also = "the configured value being nil"
+			}
 			c.Check(R, "engine.(*baseServer).Construct/every-plain-reader-is-converted", cl.Pos(), also == "", keyf("the conversion also depends on: %s", also))
 		}
 	}
@@ -651,4 +705,137 @@ func discardCompletesBufferedClose(c *core.Ctx, R string) {
 func exprOf(d any) ast.Expr {
 	e, _ := d.(ast.Expr)
 	return e
+}
+
+// readerStartedByConsumer (C08.6 = C06.12 = C02.17) — the transports that read
+// their connection on a goroutine of their own start it in Start(), and the engine
+// calls Start only once the consumer's listeners are attached.
+func readerStartedByConsumer(c *core.Ctx, R string) {
+	c.Rule(R, "listener-before-reader (typestate): the reader goroutine of a websocket / webtransport transport (`go w.message()`) is started only inside a sync.Once of its Start method — never by the constructor; Start is reached only through engine.startTransport, which is called (a) by baseServer.Handshake after Emit(\"connection\"), on the path to its successful return, and (b) by socket.MaybeUpgrade after the attempt's listeners (packet, close and error of the candidate, close of the session) are registered, on the edge where the session is not closed — a frame read earlier is emitted to no listener and lost (first message of a session that starts on websocket; the probe of an upgrade)")
+	// (1) who starts a reader
+	n := 0
+	for _, u := range c.P.Units {
+		for _, cl := range u.Calls() {
+			if !cl.Go || !strings.HasSuffix(cl.Key, ").message") || cl.Inlined != nil {
+				continue
+			}
+			n++
+			c.Touch(u)
+			root := u.Root().Key
+			inStart := root == "transports.(*websocket).Start" || root == "transports.(*webTransport).Start"
+			once := false
+			if u != u.Root() {
+				for _, dc := range u.Root().Calls() {
+					if dc.Name == "Do" && dc.Recv != nil && core.TypeName(u.Info().TypeOf(dc.Recv)) == "Once" && closureArg(u.Root(), dc, 0) == u {
+						once = true
+					}
+				}
+			}
+			c.Check(R, keyf("%s/go-message-only-in-Start-once", root), cl.Pos(), inStart && once, keyf("started by the transport's Start: %v; inside its sync.Once: %v (a constructor that starts the reader does so before any consumer can listen)", inStart, once))
+		}
+	}
+	c.Need(R, "reader goroutine starts (go message())", n, 2)
+	// (2) who calls Start
+	n = 0
+	for _, u := range c.P.Units {
+		for _, cl := range u.Calls() {
+			if cl.Name != "Start" || cl.Callee == nil || cl.Inlined != nil || !strings.HasPrefix(cl.Key, "transports.") {
+				continue
+			}
+			n++
+			c.Touch(u)
+			c.Check(R, keyf("%s/Start-only-through-startTransport", u.Root().Key), cl.Pos(), u.Root().Key == "engine.startTransport", "a transport is started where the engine knows the listeners are attached")
+		}
+	}
+	c.Need(R, "calls of a transport's Start", n, 1)
+	var inHs, inUp []*core.Call
+	for _, cl := range callsAnywhere(c, "engine.startTransport") {
+		switch callerKey(c, cl) {
+		case "engine.(*baseServer).Handshake":
+			inHs = append(inHs, cl)
+		case sockUpgrade:
+			inUp = append(inUp, cl)
+		default:
+			c.Check(R, keyf("%s/startTransport-caller", callerKey(c, cl)), cl.Pos(), false, "startTransport is called by Handshake and MaybeUpgrade only")
+		}
+	}
+	// (3) Handshake
+	if u := c.Fn(R, "engine.(*baseServer).Handshake"); u != nil {
+		g := u.Graph()
+		var conn *core.Call
+		for _, e := range filterEv(events(c, u), "emit", "", "connection") {
+			conn = e.Call
+		}
+		after, every := false, false
+		for _, st := range inHs {
+			// a deferred start runs when Handshake returns (or a listener panics), i.e. after the event
+			if conn != nil && (g.Dominates(conn.Loc, st.Loc) || st.Deferred) {
+				after = true
+			}
+			// the successful return hands a transport back
+			for _, r := range returnsIn(u) {
+				if len(r.Stmt.Results) == 2 && !core.IsNil(u.Info(), r.Stmt.Results[1]) {
+					every = g.Dominates(st.Loc, r.Loc)
+				}
+			}
+		}
+		c.Check(R, "engine.(*baseServer).Handshake/startTransport-after-Emit(connection)", u.Pos(), after && every, keyf("after the connection event: %v; on every path to the successful return: %v", after, every))
+	}
+	// (4) MaybeUpgrade
+	if u := c.Fn(R, sockUpgrade); u != nil {
+		g := u.Graph()
+		var regs []*Ev
+		for _, e := range events(c, u) {
+			if (e.Kind == "on" || e.Kind == "once") && (e.Event == "packet" || e.Event == "close" || e.Event == "error") {
+				regs = append(regs, e)
+			}
+		}
+		ok := len(inUp) == 1 && len(regs) >= 4
+		if ok {
+			st := inUp[0]
+			for _, e := range regs {
+				ok = ok && g.Dominates(e.Loc, st.Loc)
+			}
+			ok = ok && g.GuardedBy(st.Loc, stateExcludes(sockStateKeys, "socket.readyState", "closed"))
+			// nothing between the registrations and the end of the function avoids it, except the closed edge
+			for _, r := range returnsIn(u) {
+				if g.Dominates(regs[len(regs)-1].Loc, r.Loc) && !g.Dominates(st.Loc, r.Loc) && !g.GuardedBy(r.Loc, stateIs(sockStateKeys, "closed")) {
+					ok = false
+				}
+			}
+		}
+		c.Check(R, sockUpgrade+"/startTransport-after-the-attempt's-listeners", u.Pos(), ok, keyf("%d startTransport call(s), %d listener registrations ahead of it, on the not-closed edge, not avoided by an early return", len(inUp), len(regs)))
+	}
+}
+
+// readerStartsAfterConnection: the pure form of (1)–(3) above, for C06.12's disjunction.
+func readerStartsAfterConnection(c *core.Ctx) bool {
+	for _, k := range []string{"transports.(*websocket).Construct", "transports.(*webTransport).Construct"} {
+		if u := c.P.Func(k); u != nil {
+			for _, w := range u.WithHelpers() {
+				for _, a := range w.AllUnits() {
+					for _, cl := range a.Calls() {
+						if cl.Go && strings.HasSuffix(cl.Key, ").message") {
+							return false
+						}
+					}
+				}
+			}
+		}
+	}
+	u := c.P.Func("engine.(*baseServer).Handshake")
+	if u == nil {
+		return false
+	}
+	g := u.Graph()
+	var conn *core.Call
+	for _, e := range filterEv(events(c, u), "emit", "", "connection") {
+		conn = e.Call
+	}
+	for _, cl := range u.Calls() {
+		if cl.Key == "engine.startTransport" && conn != nil && (g.Dominates(conn.Loc, cl.Loc) || cl.Deferred) {
+			return true
+		}
+	}
+	return false
 }
